@@ -1,0 +1,13 @@
+//go:build verif
+
+package NoKV
+
+// VerifWatchdogStopLoop stops the WAL watchdog's background ticker, waiting for a
+// pass that is in flight (the one Start runs immediately), but keeps the watchdog
+// object so that VerifWatchdogRunOnce can place further passes deterministically.
+// DB.Close stops it again, which is a no-op.
+func (db *DB) VerifWatchdogStopLoop() {
+	if db.walWatchdog != nil {
+		db.walWatchdog.Stop()
+	}
+}
